@@ -401,6 +401,7 @@ func c06(p *core.Program, r *core.Report) {
 	strideCacheRule(p, r, "stride-cache-coupled")
 	parsedNumberRule(p, r, "number-only-when-parsed")
 	ordinateFromStrconvRule(p, r, "ordinate-from-strconv")
+	nestingUnboundedRule(p, r, "nesting-depth-unbounded")
 
 	// ---- GENSYNC
 	genSyncRule(p, r, "gensync")
